@@ -2,6 +2,8 @@
 Lean driver (`prog` command) and harness/impl_prog.py."""
 from __future__ import annotations
 
+import json
+
 import gen_dims
 
 FLOAT_DTYPES = ["float32", "float16", "float64", "bfloat16"]
@@ -137,6 +139,23 @@ def count_leaves(tree):
     return 1
 
 
+def normalize_union(ts):
+    """what `typing.Union[...]` makes of the members: nested unions are flattened, members that compare
+    equal are merged (classes, `Any`, `tuple[int, int]` ...; jaxtyping annotations are fresh classes every
+    time and never compare equal), a single remaining member is returned as itself. Without this the
+    model would be asked about `Union[Any, Any]` while the implementation sees plain `Any`."""
+    flat = []
+    for t in ts:
+        flat.extend(t["ts"] if t.get("t") == "union" else [t])
+    out = []
+    for t in flat:
+        s = json.dumps(t, sort_keys=True)
+        fresh = '"arr"' in s or '"pytree"' in s
+        if fresh or all(json.dumps(u, sort_keys=True) != s for u in out):
+            out.append(t)
+    return out[0] if len(out) == 1 else {"t": "union", "ts": out}
+
+
 def rand_leaf_type(rng, arrays=True, depth=1, qmark=False):
     r = rng.below(12)
     if r == 0:
@@ -150,7 +169,7 @@ def rand_leaf_type(rng, arrays=True, depth=1, qmark=False):
     if r == 4:
         return ANY
     if r == 5 and depth > 0:
-        return {"t": "union", "ts": [rand_leaf_type(rng, arrays, depth - 1, qmark), rand_leaf_type(rng, arrays, depth - 1, qmark)]}
+        return normalize_union([rand_leaf_type(rng, arrays, depth - 1, qmark), rand_leaf_type(rng, arrays, depth - 1, qmark)])
     if r == 6 and depth > 0:
         return {"t": "tuple", "ts": [rand_leaf_type(rng, arrays, depth - 1, qmark) for _ in range(rng.rng(1, 2))]}
     if arrays:
